@@ -48,11 +48,19 @@ def run(repo, harnesses, jobs=8, timeout=3000, playback=False, fmt="terse", name
             cmd += ["--harness", h]
         env = dict(os.environ, CARGO_NET_OFFLINE="true")
         res.cmd = "CARGO_NET_OFFLINE=true " + " ".join(cmd)
+        # own process group, so that a timeout also ends the cbmc grandchildren
+        proc = subprocess.Popen(cmd, cwd=src, env=env, stdout=subprocess.PIPE, stderr=subprocess.PIPE, text=True, start_new_session=True)
         try:
-            p = subprocess.run(cmd, cwd=src, env=env, capture_output=True, text=True, timeout=timeout)
-            out = p.stdout + "\n" + p.stderr
-        except subprocess.TimeoutExpired as e:
-            out = (e.stdout or b"").decode("utf8", "replace") if isinstance(e.stdout, bytes) else (e.stdout or "")
+            so, se = proc.communicate(timeout=timeout)
+            out = so + "\n" + se
+        except subprocess.TimeoutExpired:
+            import signal
+            try:
+                os.killpg(proc.pid, signal.SIGKILL)
+            except Exception:
+                pass
+            so, se = proc.communicate()
+            out = (so or "") + "\n" + (se or "")
             res.tool_errors.append("cargo kani timed out after %ds" % timeout)
         res.raw = out
         _parse(res, out, harnesses, named_covers, some_covers)
